@@ -697,7 +697,9 @@ func runC08Request(c *fw.Ctx, id string, r *rand.Rand, proto string) {
 	v := map[string]refmatch.Variant{"udp": refmatch.VariantByName("udp4"), "icmp": refmatch.VariantByName("icmp4"), "tcp": refmatch.VariantByName("syn")}[proto]
 	target := drive.TargetFor(v, c.Worker)
 	// (timeout, end-to-end probes): the pause between two end-to-end probes is MaxTTL*timeout/probes, at most one second
-	shape := [][2]int{{1000, 3}, {100, 10}, {300, 6}, {1000, 3}, {40, 12}}[r.Intn(5)]
+	// (a listening timeout of 0 - `--timeout 0`, an unset field of a library caller - is a parameter like any other: the
+	// bound computed from it is the pacing plus one poll interval)
+	shape := [][2]int{{1000, 3}, {100, 10}, {300, 6}, {1000, 3}, {40, 12}, {0, 3}}[r.Intn(6)]
 	params := traceroute.TracerouteParams{Hostname: target.String(), Port: 33434, Protocol: proto, MinTTL: 1, MaxTTL: 5, Delay: 50, Timeout: time.Duration(shape[0]) * time.Millisecond,
 		TCPMethod: traceroute.TCPConfigSYN, TracerouteQueries: 3, E2eQueries: shape[1], ReverseDns: true, CollectSourcePublicIP: true}
 	env, err := newReqEnv(c, params, target, 33434, false)
